@@ -21,6 +21,7 @@ from __future__ import annotations
 
 import ast
 import builtins as _b
+import contextlib
 import copy
 import operator as _op
 import types
@@ -32,6 +33,11 @@ from ..astutil import unparse, walk_local
 
 class Unsupported(Exception):
     pass
+
+
+class NonTermination(Unsupported):
+    """the interpreted wrapper exceeded every bound on this (tiny) input: step budget, size of the collection, recursion
+    depth, memory.  Reported as a divergence from the builtin (which returns), not as an unknown construct."""
 
 
 class _Return(Exception):
@@ -80,6 +86,47 @@ class EventHelper:
         self.kind = kind
 
 
+_ITER_CAP = 2000
+
+
+def _bounded(it):
+    n = 0
+    for x in it:
+        n += 1
+        if n > _ITER_CAP:
+            raise NonTermination("unbounded iteration over the collection while it grows (non-terminating wrapper)")
+        yield x
+
+
+@contextlib.contextmanager
+def memory_guard(extra: int = 256 << 20):
+    """While active, the address space of this process may grow by at most `extra` bytes: a wrapper variant that makes a
+    builtin consume an ever growing container ends in MemoryError (-> Unsupported) instead of exhausting the machine."""
+    try:
+        import resource
+        soft, hard = resource.getrlimit(resource.RLIMIT_AS)
+        vm = None
+        with open("/proc/self/status") as f:
+            for line in f:
+                if line.startswith("VmSize:"):
+                    vm = int(line.split()[1]) * 1024
+        if vm is None:
+            raise OSError("no VmSize")
+        lim = vm + extra
+        if hard != resource.RLIM_INFINITY:
+            lim = min(lim, hard)
+        if soft != resource.RLIM_INFINITY:
+            lim = min(lim, soft)
+        resource.setrlimit(resource.RLIMIT_AS, (lim, hard))
+    except Exception:
+        yield
+        return
+    try:
+        yield
+    finally:
+        resource.setrlimit(resource.RLIMIT_AS, (soft, hard))
+
+
 class CollModel:
     """a collection under instrumentation: the builtin container + the events announced so far.  Reading it behaves
     like the builtin (iteration, len, membership, subscript, the non-mutating methods); every mutation has to go
@@ -91,7 +138,9 @@ class CollModel:
         object.__setattr__(self, "_mutators", frozenset(mutators))
 
     def __iter__(self):
-        return iter(self.data)
+        # bounded: a wrapper that hands the collection to a native consumer which also grows it (list.extend(data,
+        # <the collection>)) would otherwise iterate for ever and exhaust memory inside the builtin
+        return _bounded(self.data)
 
     def __len__(self):
         return len(self.data)
@@ -106,6 +155,9 @@ class CollModel:
         if name.startswith("__") or name in self._mutators:
             raise AttributeError(name)
         return getattr(self.data, name)
+
+    def __reversed__(self):
+        return _bounded(reversed(self.data))
 
     def __repr__(self):
         return f"<coll {self.data!r}>"
@@ -155,7 +207,7 @@ class PyModel:
     def _tick(self):
         self.budget -= 1
         if self.budget < 0:
-            raise Unsupported("step budget exhausted (non-terminating wrapper?)")
+            raise NonTermination("step budget exhausted (non-terminating wrapper?)")
 
     # -------------------------------------------------------------------------------- calls
     def call(self, f, args, kw):
@@ -166,7 +218,12 @@ class PyModel:
             if not args or not isinstance(args[0], CollModel):
                 raise Unsupported(f"underlying {f.mname} called on something that is not the collection")
             recv = args[0]
-            return getattr(type(recv.data), f.mname)(recv.data, *args[1:], **kw)
+            # the real collection IS a list/set/dict: the builtin sees the container itself when it is its own operand
+            rest = [a.data if isinstance(a, CollModel) else a for a in args[1:]]
+            res = getattr(type(recv.data), f.mname)(recv.data, *rest, **kw)
+            if len(recv.data) > _ITER_CAP or len(recv.log) > 10 * _ITER_CAP:
+                raise NonTermination("the collection grows without bound (non-terminating wrapper)")
+            return res
         if isinstance(f, EventHelper):
             if not args or not isinstance(args[0], CollModel):
                 raise Unsupported("event helper called without the collection")
@@ -229,7 +286,11 @@ class PyModel:
         if name in self.wrappers:
             return self.call(self.wrappers[name], [recv] + list(args), kw)
         # no wrapper: the builtin runs as is (a mutator then changes the contents with no event)
-        return getattr(type(recv.data), name)(recv.data, *args, **kw)
+        args = [a.data if isinstance(a, CollModel) else a for a in args]
+        res = getattr(type(recv.data), name)(recv.data, *args, **kw)
+        if hasattr(res, "__next__"):
+            res = _bounded(res)  # self.__iter__() & co.: a live iterator over the container
+        return res
 
     # -------------------------------------------------------------------------------- expressions
     def ev(self, e, envs):
@@ -683,9 +744,14 @@ def run_model(interp: PyModel, typ, mutators, case: Case):
     except (Unsupported, _Return, _Break, _Continue):
         raise
     except RecursionError:
-        raise Unsupported("recursion limit (non-terminating wrapper?)")
+        raise NonTermination("recursion limit (non-terminating wrapper?)")
+    except MemoryError:
+        model.data.clear()
+        raise NonTermination("memory limit (the wrapper makes the collection grow without bound)")
     except Exception as e:
         ret, exc = None, type(e).__name__
+    if len(model.data) > _ITER_CAP:
+        raise NonTermination("the collection grows without bound (non-terminating wrapper)")
     if ret is model:
         ret = "<the collection itself>"
     return exc, ret, _contents(model.data), model
@@ -695,9 +761,12 @@ def compare(interp, tname, mutators, case: Case) -> Optional[str]:
     """None if the wrapper of case.mname behaves like the builtin on this input, else a one-line counterexample"""
     typ = {"list": list, "set": set, "dict": dict}[tname]
     bexc, bret, bcont, _bd = run_builtin(typ, case)
-    mexc, mret, mcont, model = run_model(interp, typ, mutators, case)
-    init = _contents(case.init)
     where = f"on {tname}({case.init!r}) `{case.show}`"
+    try:
+        mexc, mret, mcont, model = run_model(interp, typ, mutators, case)
+    except NonTermination as e:
+        return f"{where} does not terminate ({e}) but the builtin {'raises ' + bexc if bexc else 'leaves ' + repr(bcont)}"
+    init = _contents(case.init)
     if tname == "set" and case.mname == "pop" and bexc is None and mexc is None:
         # which member leaves is arbitrary: it must have been a member and be the only one that left
         ok = mret in case.init and mcont == sorted(set(case.init) - {mret}, key=repr)
